@@ -13,7 +13,7 @@ func init() {
 	register("C13",
 		"DECIDED (decision tables over a finite partition of the float line, NaN included, extracted from the SSA control-flow graph; every path of every cell is examined): "+
 			"D1 AddWithCount/Add of both sketch variants: negative weight, NaN, ±Inf and |v|>MaxIndexableValue return the documented package-level error variable, every other (value,weight) class returns nil, and every refusing path performs no write at all; the exact variant validates through the inner sketch before any shortcut and before touching the statistics. "+
-			"D2 GetValueAtQuantile (both variants) and the batch form: q in {NaN,<0,>1} and the empty sketch return a non-nil error with no write; q in [0,1] on a non-empty sketch returns nil. "+
+			"D2 GetValueAtQuantile (both variants) and the batch form: q in {NaN,<0,>1} and the empty sketch return a non-nil error with no write; q in [0,1] on a non-empty sketch returns nil; in the batch forms the error of EVERY per-element query on a path (two turns of the element loop are enumerated) is tested or is what the path returns — an error that a later element overwrites is reported. "+
 			"D3 MergeWith (both variants): unequal mappings → non-nil error before any write. Reweight (sketch ×2, every Store implementation): factor ≤ 0 → error with no write, factor = 1 → nil with no write, and no error can be returned after the first write (callee tables are used as summaries). "+
 			"D4 constructors: accuracy ≤0 / ≥1 and gamma ≤1 return (nil, error); sketch constructors propagate; NewBin(count<0) and NewSummaryStatisticsFromData guards. "+
 			"SHARED (obligations of other properties that decide clauses this property states too, re-evaluated here under their home rule ids): C19-D2/D3 (Equals of the mappings: comma-ok same-type test and the symmetric tolerance decision table — refusing a merge of unequal mappings rests on it). "+
